@@ -384,6 +384,14 @@ def r40(ctx: Ctx) -> RuleReport:
                           f'becomes valid after rewriting (stacked -of, a non-canonical spelling) is no longer reported')
         else:
             rep.undecided(key, fi.loc(c), norm(c))
+    # the per-source lists that the reachability report is read from are only created when missing
+    for n in ast.walk(loop):
+        if isinstance(n, ast.Assign) and isinstance(n.targets[0], ast.Subscript) and isinstance(n.value, (ast.List, ast.Call)) and norm(n.value) in ('[]', 'list()'):
+            mp, kx = norm(n.targets[0].value), norm(n.targets[0].slice)
+            fxr = facts_ex(ctx, fi, n)
+            guarded = (f'{kx} not in {mp}', True) in fxr or (f'{kx} in {mp}', False) in fxr
+            rep.add(f'{fi.fq}: `{norm(n)}` only creates the list of a source that has none yet', fi.loc(n), 'ok' if guarded else 'violation',
+                    '' if guarded else f'the list of `{kx}` is emptied for every triple: only the last triple of each source is kept, so of an unreachable node only one triple is reported')
     call_srcs = {norm(c) for c in calls}
     tests = [nd for nd in cfg.nodes if nd.kind == 'cond' and ('.has_role(' in norm(nd.ast) or any(cs in norm(nd.ast) for cs in call_srcs))
              and any(x is nd.ast for x in ast.walk(loop))]
